@@ -173,3 +173,16 @@ def register(claim):
                'utf-16 x header present / absent in 3 spellings x titles x boolean spelling) over typed columns with a null row.',
           note=NOTE_COMMON + ' Value fidelity is measured on real files; fields are separated (no adjacent fields).',
           ref='DESIGN.md section 5, C16')
+    claim('C05',
+          technique='TLA+ case analysis (FrameCompare.tla): declarative SpecEqual vs the transcription of check_dataframe on '
+                    'reference frames x single mutations x option sets, TLC exhaustive (CopyPasses, SingleMutationFails, NeverError); '
+                    'case table replayed on check_dataframe and the assertion entry points; rich frames, and histories on one '
+                    'comparison object, recorded as traces judged by Trace_FrameCompare',
+          text='8 reference frames (int64, Int64, float64, bool, object, string, category, datetime64, empty) x every single mutation '
+               '(cell within / beyond precision, null, name, type, order, add/drop column, add/drop row) x 255 option sets '
+               '(check_types / check_data / check_order / check_extra_cols as None, False, list or function; type_matching; sortby; '
+               'condition; precision); default options through assertDataFramesEqual, parquet, CSV and on-disk entry points; 500/3000 '
+               'rich frames over 21 column kinds with single mutations; sessions of 2-4 comparisons with explicit and default '
+               'precision on one object.',
+          note=NOTE_COMMON + ' Categorical = string; no half-way rounding cases; file entry points on dtypes the format preserves.',
+          ref='DESIGN.md section 5, C05')
